@@ -88,6 +88,7 @@ func TestRefCountFree(t *testing.T) {
 		rounds++
 		rd := &fround{}
 		rng := rand.New(rand.NewPCG(*hist.Seed, uint64(h)))
+		switching := h%2 == 1
 		var nextID atomic.Int64
 		var vals sync.Map
 		ctx, cancel := context.WithCancel(context.Background())
@@ -106,7 +107,7 @@ func TestRefCountFree(t *testing.T) {
 					if f.held.Load() && f.last.Load() == v.id {
 						rd.fail(&code, 5, fmt.Sprintf("value %d is released while a held reference has it as the last value it was told", v.id))
 					}
-					if f.held.Load() && f.given.Load() == v.id {
+					if !switching && f.held.Load() && f.given.Load() == v.id {
 						// nothing in this run invalidates a value (no released() callback, no context change)
 						rd.fail(&code, 5, fmt.Sprintf("value %d is released while a reference that was given it is still held, and nothing invalidated it", v.id))
 					}
@@ -159,8 +160,37 @@ func TestRefCountFree(t *testing.T) {
 				}
 			}(g)
 		}
+		// in every second round the context of the RefCount is replaced again and again while the references come and go
+		// (each replacement restarts the resolver; nothing else invalidates a value)
+		stopSw := make(chan struct{})
+		var swWg sync.WaitGroup
+		if switching {
+			swWg.Add(1)
+			go func() {
+				defer swWg.Done()
+				prev := cancel
+				for {
+					select {
+					case <-stopSw:
+						prev()
+						return
+					default:
+					}
+					nctx, ncancel := context.WithCancel(context.Background())
+					rc.SetContext(nctx)
+					rd.log(-2, "setcontext", 0)
+					prev()
+					prev = ncancel
+					for k := 0; k < 20; k++ {
+						runtime.Gosched()
+					}
+				}
+			}()
+		}
 		close(startCh)
 		wg.Wait()
+		close(stopSw)
+		swWg.Wait()
 		adds += ng * 12
 		if !rd.bad.Load() {
 			// every reference is gone: every value is released (exactly once) shortly afterwards
